@@ -7,14 +7,15 @@ vars == <<cur, last>>
 None == [op |-> "none"]
 Init == cur \in Insts /\ last = None
 Move(o) == IF o.kind = "ok" THEN o.val ELSE cur
-AddAct(D) == LET o == InstantAdd(cur, D) IN last' = [op |-> "add", a |-> cur, dur |-> D, out |-> o] /\ cur' = Move(o)
-SubAct(D) == LET o == InstantSub(cur, D) IN last' = [op |-> "subtract", a |-> cur, dur |-> D, out |-> o] /\ cur' = Move(o)
+\* via "td": the twin entry points add_time_duration / subtract_time_duration, which take the time part alone
+AddAct(D, via) == (via = "td" => ~HasDateUnits(D)) /\ LET o == InstantAdd(cur, D) IN last' = [op |-> "add", a |-> cur, dur |-> D, via |-> via, out |-> o] /\ cur' = Move(o)
+SubAct(D, via) == (via = "td" => ~HasDateUnits(D)) /\ LET o == InstantSub(cur, D) IN last' = [op |-> "subtract", a |-> cur, dur |-> D, via |-> via, out |-> o] /\ cur' = Move(o)
 DiffAct(b, lg, since) == /\ last' = [op |-> IF since THEN "since" ELSE "until", a |-> cur, b |-> b, lg |-> lg,
                                     out |-> InstantDiff(cur, b, lg, "nanosecond", 1, "trunc", since)]
                          /\ cur' = b
 MsAct == last' = [op |-> "epochMs", a |-> cur, out |-> Ok(EpochMs(cur))] /\ cur' = cur
 Next == /\ (OneStep => last = None)
-        /\ \/ \E D \in Durs : AddAct(D) \/ SubAct(D)
+        /\ \/ \E D \in Durs, via \in {"dur", "td"} : AddAct(D, via) \/ SubAct(D, via)
            \/ \E b \in Insts, lg \in {"hour", "minute", "second", "millisecond", "microsecond", "nanosecond"}, s \in BOOLEAN : DiffAct(b, lg, s)
            \/ MsAct
 Spec == Init /\ [][Next]_vars
